@@ -382,6 +382,22 @@ func runC10(env *Env, s Scenario) {
 
 			return
 		}
+		k := sc.F.EOFAt
+		if sc.F.ErrAt > k {
+			k = sc.F.ErrAt
+		}
+		// (what the device had emitted when Open returned: later operations add to the stream)
+		upto := open.EmittedAtEnd
+		if upto > len(sr.Tr.Out()) {
+			upto = len(sr.Tr.Out())
+		}
+		if open.Err == nil && open.DevMode == sc.Dev.Modes[0].Name && k <= upto && strings.TrimSpace(string(sr.Tr.Out()[k:upto])) == "" {
+			// everything up to the shell prompt had been delivered (only white space after the
+			// prompt was cut off): the login was complete, success is the right answer
+			env.Probe("loss-after-the-shell-prompt-was-delivered")
+
+			return
+		}
 		env.Probe("loss-during-login")
 		rd := Micro(sc.ReadDelayUS)
 		if open.Err == nil {
